@@ -9,6 +9,7 @@ CONSTANTS
   EventShapes <- ES_small
   EvNames <- N1
   Listeners <- L0
+  SubmitKinds <- K4
   Loose = FALSE
   Dev <- NoDev
   AllowLose = FALSE
